@@ -348,6 +348,8 @@ class Skedder(object):
             #its generator is responsible for releasing resources
 
             console.terse("Aborting all ready Taskers ...\n")
+            surprise = None  # first exception raised by a tasker while being aborted
+            unwinding = sys.exc_info()[1] is not None  # already exiting via exception
             for i in range(len(ready)): #run each ready tasker once
                 tasker,retime,period = ready.popleft() #pop it off
 
@@ -356,8 +358,15 @@ class Skedder(object):
                     console.terse("Tasker '{0}' aborted\n".format(tasker.name))
                 except StopIteration: #generator returned instead of yielded
                     console.terse("Tasker '{0}' generator already exited\n".format(tasker.name))
+                except Exception as ex:  # keep going so every ready tasker gets aborted
+                    console.terse("Tasker '{0}' raised while aborting: {1}\n".format(tasker.name, ex))
+                    if surprise is None:
+                        surprise = ex
 
                 #tasker.runner.close() #kill generator
+
+            if surprise is not None and not unwinding:
+                raise surprise  # otherwise the exception that ended the run propagates
 
         if console._verbosity >= console.Wordage.concise:
             for house in self.houses:
